@@ -1237,6 +1237,11 @@ func (c *ExecCtx) applyContract(st *State, fs *FuncSpec, fn *types.Func, recv *V
 		u.oblige(st, "pre", Not(t), pos, fmt.Sprintf("%s panics if: %s", shortKey(fs.Key), cl.Src))
 	}
 	for _, raw := range fs.Extra["holds"] {
+		if c.exemptFromGuards() {
+			// constructors run before the object is published: the lock
+			// discipline does not apply yet (same exemption as guarded_by)
+			break
+		}
 		if ex, err := parseSpecExpr(raw); err == nil {
 			k, idx := env.specLockKey(st, pre, ex)
 			held, cond, mode := c.lockHeldFor(st, k)
@@ -1295,7 +1300,7 @@ func (c *ExecCtx) applyContract(st *State, fs *FuncSpec, fn *types.Func, recv *V
 	// bind results
 	env.bindResults(results)
 	for _, cl := range fs.Ensures {
-		if strings.HasPrefix(cl.Label, "internal") || mentionsGhostVar(fs, cl.Expr) {
+		if strings.HasPrefix(cl.Label, "internal") || mentionsGhostVar(fs, cl.Expr) || mentionsUnitLocal(cl.Expr) {
 			continue // refers to ghost state of the callee's own verification
 		}
 		env.assuming = true
@@ -1808,6 +1813,25 @@ func (e *Engine) importClosure(p *types.Package) map[*types.Package]bool {
 
 // mentionsGhostVar: does the clause mention one of the contract's own ghost
 // variables (which exist only while the callee itself is being verified)?
+// mentionsUnitLocal: tagged(), held(), heldw() and wgcount() speak about the
+// execution of the unit they are proved in; they mean nothing in a caller's
+// state (assuming them there would assume `false`).
+func mentionsUnitLocal(e ast.Expr) bool {
+	found := false
+	ast.Inspect(e, func(n ast.Node) bool {
+		if ce, ok := n.(*ast.CallExpr); ok {
+			if id, ok := ce.Fun.(*ast.Ident); ok {
+				switch id.Name {
+				case "tagged", "held", "heldw", "wgcount":
+					found = true
+				}
+			}
+		}
+		return !found
+	})
+	return found
+}
+
 func mentionsGhostVar(fs *FuncSpec, e ast.Expr) bool {
 	if len(fs.Extra["ghostvar"]) == 0 {
 		return false
